@@ -9,7 +9,7 @@
    decided by the bit-exact correspondence and the falsifier. *)
 From Coq Require Import ZArith List String Bool.
 From Hexital Require Import Base.Prelude Base.Num Model.Manager Model.Candle Model.Readings Model.Engine
-  Proofs.EngineProofs Proofs.CausalProofs Proofs.AnalysisProofs Proofs.ComposeProofs Proofs.PipelineProofs Proofs.ComposeHA Proofs.CausalMore Proofs.CausalWin Model.Analysis.
+  Proofs.EngineProofs Proofs.CausalProofs Proofs.AnalysisProofs Proofs.ComposeProofs Proofs.PipelineProofs Proofs.ComposeHA Proofs.CausalMore Proofs.CausalWin Proofs.CompositeProofs Proofs.AtrCompose Model.Analysis.
 Import ListNotations.
 Local Open Scope Z_scope.
 
@@ -175,3 +175,22 @@ Theorem C01_append_on_timeframe_ha :
             calculate O I M = canon O I calc (convert O (resample (payload O) (Candle.merge O) tf (xs ++ ys))).
 Proof. intros O I calc Hl Hp Hc tf xs ys D Htf Hs Hpr Hf HD. eapply append_on_timeframe_ha; eassumption. Qed.
 Print Assumptions C01_append_on_timeframe_ha.
+
+(* ---- a composite indicator: ATR over its own true-range helper series ----
+   The generic statement (Proofs/CompositeProofs.v) is for a parent with a pure reading function
+   and one leaf helper calculated before it; calculate() is then the helper's calculate followed
+   by the parent's loop, and its specification is the parent's canonical readings over the
+   helper's canonical readings of the whole stream.  For ATR all obligations are discharged
+   (the helper reads high/low/close only; the parent reads the helper's series and its own
+   previous reading).  Whenever one calculate() over the whole stream succeeds, every split of
+   the stream into append chunks ends in exactly its result.  (If the batch raises, the chunked
+   run raises too, possibly another exception: the batch runs the helper over the whole stream
+   before the parent starts.) *)
+Theorem C01_atr_incremental_equals_batch :
+  forall (O : NumOps) (period : Z) (name : string) (rnd : Z), 1 <= period -> has_dot name = false ->
+  forall (chunks : list (list (cd (payload O)))) (r : store O),
+  Forall (Forall (fresh O (Pa O period name rnd))) chunks -> Forall (Forall (fresh O (Sb O name))) chunks ->
+  calculate O (top O (K_ATR period) name rnd) (List.concat chunks) = Ok r ->
+  engine_chunks O (top O (K_ATR period) name rnd) [] chunks = Ok r.
+Proof. intros O period name rnd Hp Hn chunks r HP HS H. eapply atr_incremental_equals_batch; eassumption. Qed.
+Print Assumptions C01_atr_incremental_equals_batch.
